@@ -82,3 +82,14 @@ prop("C04", "fault_enumeration", (160, 2500),
      text="Complete enumeration, per sampled proof, of single-component alterations of the Fiat-Shamir transcript (statement fields, public inputs, every absorbed proof element) "
           "with a causality oracle: all challenges drawn after the altered component must change. Demands dependence, not a particular absorption format.",
      note="PLONK transcripts with Poseidon and Keccak, with and without lookups; the STARK transcript is covered once the STARK family exists (see DESIGN). A challenge word may coincide by chance with probability 2^-64.")
+
+prop("C16", "exploration", (400, 8000),
+     rule="one run = one accepted honest proof of a collision-biased scenario (tiny circuits: LDE domains 2^5..2^8, 28-84 query rounds, all arity schedules, cap heights, "
+          "with/without lookups and blinding, Poseidon/Keccak); cases: (a) compress / decompress identity, verify_compressed accepts, compressed bytes round-trip; "
+          "(b) +1 faults at first/last/random element positions of every component of the compressed message: verify_compressed and decompress-then-verify give the same verdict; "
+          "(c) +1 faults on absorbed elements of the plain proof: same verdict before and after compression. distinct = (scenario, schedule trace, fault); "
+          "non-trivial = fault changed the value (for (a): always, a full compress/decompress/verify happened)",
+     technique="deterministic simulation: second channel encoding of honest proofs under collision-biased query sets, with element faults and verdict-equivalence oracle",
+     text="Seeded exploration of proofs whose query sets repeat indices and share cosets (probes count how often), checking that compression is lossless, that the compressed "
+          "form of an accepted proof is accepted, and that the two verification routes agree on faulted messages.",
+     note="Faults on query-round data of the plain proof are not compressed-and-compared: compression legitimately drops redundant siblings, so the verdict may differ by design.")
